@@ -22,6 +22,7 @@ import deepali.spatial  # noqa: F401
 import deepali.spatial.generic  # noqa: F401
 
 from mc.core import Acc, exc_text, guarded, h64, tensor_bytes
+from checks import layout_spatial as LS
 from ref import grid as rg
 from ref import transform as rt
 
@@ -36,7 +37,9 @@ RULE = (
     "updated since the last change, or tensor parameters + inverse made with update_buffers=True from a forward transform without stale "
     "buffers), also directly through forward(), points(), disp() and the product of the tensor() representations; non-trivial = an inverse "
     "exists, the judgement is defined and the forward map moves a probe by > 1e-3; plus amplitude-pair order tests of the velocity models "
-    "and ExpFlow on larger grids"
+    "and ExpFlow on larger grids; plus the `layout` sub-check: invertible transforms built from transposed / step-sliced / stride-0 expanded / "
+    "channels-last parameter tensors (constructor and data_()), inverted in three forms and evaluated on non-contiguous point sets, must equal "
+    "the contiguous build, still invert (linear models), raise nothing and leave the supplied tensors unchanged"
 )
 EXPLANATION = "bounded explicit-state exploration of (transform, inverse) pairs sharing parameters; inv o t = t o inv = id after every history"
 ASSUMPTIONS = [
@@ -52,7 +55,7 @@ ASSUMPTIONS = [
 ]
 MIN_NONTRIVIAL = {"quick": 2000, "thorough": 12000}
 MIN_OUTCOMES = {"quick": 900, "thorough": 2500}
-MIN_SUB_TRACES = {"history": 3000, "order": 30, "expflow": 24}
+MIN_SUB_TRACES = {"history": 3000, "order": 30, "expflow": 24, "layout": 80}
 
 EPS32 = 2.0 ** -23
 C = 64.0
@@ -298,6 +301,7 @@ def bounds(tier):
         "mirror_variants(negative / mixed-sign scale factors, det < 0; depth 2 quick / 3 thorough)": sum(1 for c_ in cf if c_.get("mirror")),
         "order_tests": len(order_cases(tier, 0)),
         "expflow_tests": len(expflow_cases(tier, 0)),
+        "layout_cases(non-contiguous parameters x inverse form x non-contiguous points)": len(layout_cases(tier, 0)),
     }
 
 
@@ -1254,6 +1258,111 @@ def run_expflow(case, acc: Acc = None):
 
 
 # ---------------------------------------------------------------------------
+# layout sub-check: invertible transforms built from non-contiguous parameter tensors, evaluated on non-contiguous point sets
+def layout_cases(tier: str, seed: int):
+    out = []
+    invs = ("inverse", "inv", "inverse_ub")
+    pforms = ("transposed", "sliced", "expanded")
+    for D in (2, 3):
+        k = 0
+        for cls in LS.classes(D, invertible_only=True):
+            for form in LS.FORMS:
+                for route in ("ctor", "data_"):
+                    k += 1
+                    combos = [(invs[k % 3], pforms[(k // 2) % 3], ("buffer", "param")[k % 2])]
+                    if tier == "thorough":
+                        combos = [(i_, p_, kd) for i_ in invs for p_ in pforms for kd in ("buffer", "param")]
+                    for i_, p_, kd in combos:
+                        out.append({"sub": "layout", "cls": cls, "D": D, "form": form, "route": route, "kind": kd, "inv": i_, "pform": p_, "seed": seed})
+    return out
+
+
+def run_layout(case, acc: Acc = None):
+    out = []
+    D, cls, form, seed = case["D"], case["cls"], case["form"], case["seed"]
+    short = SHORT.get(cls, cls)
+    vel = cls in VELOCITY
+    gspec = dict(grids(D)["vel" if vel else "lin"])
+    gspec["ac"] = True
+    grid = rg.real_grid(gspec)
+    N = 2
+    where = f"{short}/{case['route']}[{case['kind']}]/{case['inv']}/points={case['pform']}"
+
+    def emit(view, kind, detail):
+        out.append((f"C07/layout/{where}/{view}/layout={form}/{kind}", detail))
+
+    st, b = guarded(LS.build, cls, D, grid, N, case["kind"], case["route"], form, seed)
+    if acc is not None:
+        acc.trans(2)
+    if st == "raises":
+        emit("construct", raises_kind(b), exc_text(b))
+        return out
+    if b is None:
+        if acc is not None:
+            acc.undef("layout form not applicable to the parameter shape")
+        return out
+    t, r, supplied = b
+    X = LS.probe_points(D, N)
+    if LS.applicable(X, case["pform"]):
+        xa, xb = LS.variant(X, case["pform"])
+    else:
+        xa, xb = X.clone(), X.clone()
+    fpx = LS.fingerprint(xa)
+
+    def mkinv(o):
+        if case["inv"] == "inverse":
+            return o.inverse()
+        if case["inv"] == "inv":
+            return o.inv
+        return o.inverse(update_buffers=True)
+
+    def run(o, x):
+        i_ = mkinv(o)
+        y = o(x)
+        x1 = i_(y)
+        z = i_(x)
+        x2 = o(z)
+        return y, x1, z, x2
+
+    st1, a1 = guarded(run, t, xa)
+    st2, a2 = guarded(run, r, xb)
+    if acc is not None:
+        acc.trans(10)
+    if st2 == "raises":
+        if acc is not None:
+            acc.undef("contiguous form raises (judged by the history sub-check)")
+        return out
+    if st1 == "raises":
+        emit("call", raises_kind(a1), exc_text(a1))
+        return out
+    for name, u, v in zip(("t(x)", "inv(t(x))", "inv(x)", "t(inv(x))"), a1, a2):
+        c_ = LS.compare(u, v)
+        if c_:
+            emit(name, c_[0], c_[1])
+    if not vel:
+        xr = xb.double()
+        scale = max(1.0, float(a1[0].abs().max()), float(a1[2].abs().max()))
+        tol = C * EPS32 * scale * COND_BOUND
+        for name, u in (("inv(t(x))", a1[1]), ("t(inv(x))", a1[3])):
+            if tuple(u.shape) == tuple(xr.shape):
+                e = float((u.double() - xr).abs().max())
+                if not np.isfinite(e) or e > tol:
+                    emit(name, "not-identity", f"max error {e:.3e} cube units > tol {tol:.2e}")
+    bad = LS.mutated(supplied)
+    if bad:
+        emit("construct", "operand-mutated", f"parameter tensor(s) {bad} handed to the transform were modified")
+    if LS.fingerprint(xa) != fpx:
+        emit("call", "operand-mutated", "the point tensor handed to the transform was modified")
+    if acc is not None:
+        acc.trace("layout", depth=1)
+        key = repr(sorted((k, str(v)) for k, v in case.items()))
+        acc.state("layout", key)
+        acc.nontriv("layout", key)
+        acc.outcome("layout", key, tensor_bytes(a1[1]))
+    return out
+
+
+# ---------------------------------------------------------------------------
 def shards(tier: str, seed: int):
     out = []
     cf = configs(tier, seed)
@@ -1275,6 +1384,9 @@ def shards(tier: str, seed: int):
     ec = expflow_cases(tier, seed)
     for i in range(0, len(ec), 6):
         out.append({"tier": tier, "seed": seed, "sub": "expflow", "lo": i, "hi": min(i + 6, len(ec))})
+    nl = len(layout_cases(tier, seed))
+    for i in range(0, nl, 32):
+        out.append({"tier": tier, "seed": seed, "sub": "layout", "lo": i, "hi": min(i + 32, nl)})
     return out
 
 
@@ -1289,8 +1401,8 @@ def run_shard(shard) -> Acc:
             if st == "raises":
                 acc.violation(f"C07/harness/{family(cfg['desc'])}/raises={type(r).__name__}/{label(cfg['desc'])}", {"cfg": cfg, "hist": [first], "harness": True}, exc_text(r), size=1)
         return acc
-    cases = order_cases(tier, seed) if shard["sub"] == "order" else expflow_cases(tier, seed)
-    fn = run_order if shard["sub"] == "order" else run_expflow
+    cases = {"order": order_cases, "expflow": expflow_cases, "layout": layout_cases}[shard["sub"]](tier, seed)
+    fn = {"order": run_order, "expflow": run_expflow, "layout": run_layout}[shard["sub"]]
     for case in cases[shard["lo"]: shard["hi"]]:
         st, r = guarded(fn, case, acc)
         if st == "raises":
@@ -1306,7 +1418,7 @@ def run_shard(shard) -> Acc:
 def replay(case):
     if "case" in case:
         c = case["case"]
-        fn = run_order if c["sub"] == "order" else run_expflow
+        fn = {"order": run_order, "expflow": run_expflow, "layout": run_layout}[c["sub"]]
         st, r = guarded(fn, c, None)
         if st == "raises":
             return [(f"C07/harness/{c['sub']}/raises={type(r).__name__}", exc_text(r))]
